@@ -40,6 +40,72 @@ def partition_ok(blocks, start, stop):
     return fails
 
 
+def collected_data(ck, numpy, par, man, FakeDC):
+    """collect_block_distributed_data: every rank computes the items of its
+    block, ranks > 0 send them, rank 0 gathers; what rank 0 holds afterwards
+    is the serial result - every index of the range exactly once (point-to-
+    point messages go through an in-memory mailbox)."""
+    class MailComm:
+        def __init__(self, rank, box):
+            self.rank, self.box = rank, box
+
+        def Barrier(self):
+            pass
+
+        def Send(self, data, dest=0, tag=0):
+            self.box[(self.rank, dest, tag)] = numpy.array(data).copy()
+
+        def Recv(self, buf, source=0, tag=0):
+            buf[...] = self.box.pop((source, 0, tag))
+
+    def value(a):
+        return numpy.array([[a * 1.5 + 0.25j * (a + 1)]], dtype=complex)
+    # (two or more processes: the gathering branch)
+    sizes = range(2, 7) if ck.thorough else range(2, 5)
+    for size in sizes:
+        for n in range(0, 2 * size + 3):
+            box = {}
+            gathered = None
+            broke = None
+            for rank in list(range(1, size)) + [0]:
+                dc = FakeDC(size, rank)
+                dc.comm = MailComm(rank, box)
+                old = man.parallel_conf
+                man.parallel_conf = dc
+                try:
+                    dc.start_parallel_region()
+                    local = {}
+                    for a in par.block_distributed_range(0, n):
+                        local[a] = value(a)
+                    out = {}
+                    par.collect_block_distributed_data(
+                        [out, local],
+                        lambda cont, tag, data: cont.__setitem__(
+                            tag, numpy.array(data).copy()),
+                        lambda cont, tag: cont[tag])
+                    dc.finish_parallel_region()
+                    if rank == 0:
+                        gathered = out
+                except Exception as ex:
+                    broke = "rank %d: %r" % (rank, ex)
+                    break
+                finally:
+                    man.parallel_conf = old
+            rp = dict(kind="collect", size=size, n=n)
+            ck.case("collected-equals-serial", (size, n),
+                    nontrivial=size > 1 and n > 0, sample=rp)
+            if broke:
+                ck.violation("reduce-equals-serial", "collect:exception",
+                             dict(rp, exception=broke[:200]), rp)
+                continue
+            ok = sorted(gathered.keys()) == list(range(n)) and all(
+                numpy.array_equal(gathered[a], value(a)) for a in range(n))
+            if not ok:
+                ck.violation("reduce-equals-serial", "collect:missing-items",
+                             dict(rp, have=sorted(gathered.keys()),
+                                  want=n), rp)
+
+
 def region_programs(ck, numpy, par, man, FakeDC, SPECS):
     """ParallelRegions.tla: programs of nested region starts / ends and
     distributed loops (regions also opened and closed inside open loops, as
@@ -451,6 +517,7 @@ def main():
     # ------------------------------------------------ callers: reduce = serial
     callers(ck, with_fake, StopPass)
     region_programs(ck, numpy, par, man, FakeDC, SPECS)
+    collected_data(ck, numpy, par, man, FakeDC)
 
     ck.assume("MPI itself (mpi4py Reduce/Allreduce) is not exercised; the "
               "fake DistributedConfiguration sums the per-rank partial arrays")
